@@ -329,6 +329,16 @@ func (r *lineRun) eval(e *Expr) Val {
 		return Val{T: TBool, B: (res != nil) != e.Neg}
 	case "get":
 		return r.datum(e.M, r.keys(e.Keys)).V
+	case "incv":
+		// x++ as a value: increment, then the new value
+		d := r.datum(e.M, r.keys(e.Keys))
+		if e.Neg {
+			d.V.I--
+		} else {
+			d.V.I++
+		}
+		r.stamp(d)
+		return d.V
 	case "len":
 		return Val{T: TInt, I: int64(len(r.eval(e.A).S))}
 	case "tolower":
